@@ -2661,9 +2661,9 @@ func zScan(n *Nodis, conn *redis.Conn, cmd redis.Command) {
 		}
 	}
 	execCommand(conn, func() {
-		_, results := n.ZScan(key, cursor, match, count)
+		next, results := n.ZScan(key, cursor, match, count)
 		conn.WriteArray(2)
-		conn.WriteBulk(strconv.FormatInt(cursor, 10))
+		conn.WriteBulk(strconv.FormatInt(next, 10))
 		conn.WriteArray(len(results) * 2)
 		for _, v := range results {
 			conn.WriteBulk(v.Member)
